@@ -908,9 +908,11 @@ func stress(rt *rapid.T, p *idl.Program) bool {
 	}
 	variant := func(name, label string) string {
 		switch rapid.IntRange(0, 3).Draw(rt, label) {
-		case 0:
-			return strings.ToUpper(name[:1]) + name[1:]
-		case 1:
+		case 0, 1:
+			// the same letters in another case (x / X, name / Name)
+			if up := strings.ToUpper(name[:1]) + name[1:]; up != name {
+				return up
+			}
 			return strings.ToLower(name[:1]) + name[1:]
 		case 2:
 			return name[:1] + "_" + name[1:]
